@@ -389,6 +389,8 @@ def BASE(value, base, places=DEFAULT):
             return places
         if places < 0:
             return error.NUM
+    if value < 0 or not (2 <= base <= 36):
+        return error.NUM
     if value == 0:
         return '0'
     digits = []
